@@ -418,10 +418,31 @@ def c10_witness(pid, fails, repo):
 
 
 def c10_extra(pid, tier, seed, runs):
-    return l3run.run_c10(pid, tier, seed, runs)
+    res = l3run.run_c10(pid, tier, seed, runs)
+    # BOUNDED, always run: every sequence of up to 3 registrations over an adversarial URI pool on the REAL table (the one assumed
+    # zeep contract of unit D, create_mod_name_for_namespace == "mod_" + abbreviation, and the dropped stem computation are only
+    # covered here).  Merges of two documents are the known finding and are not part of this bounded obligation.
+    from .core import Failure, REPO
+    dr = d_replay.search(REPO)
+    lab = 'bounded:namespace-table#all-sequences-of-3-registrations'
+    res['obligations'].append('C10-sequences:' + lab)
+    res.setdefault('coverage', {})['bounded_standin'] = {'label': 'BOUNDED (not counted as proved)', 'what': 'sequences of up to 3 add_namespace_reference / '
+        'switch_to_target_namespace calls over 13 adversarial URIs x 2 prefixes on the real RustDocument; URI<->prefix and URI<->module bijective, module == mod_<prefix>, '
+        'bindings never change', 'steps_checked': dr.get('steps_checked'), 'sequence_anomalies': len(dr.get('seq_anomalies', []))}
+    if dr.get('error'):
+        class _I:
+            unit = 'C10-sequences'; status = 'inconclusive'; reason = 'namespace-table harness did not run: ' + str(dr['error'])[-300:]
+        res['inconclusive'] = _I()
+    for a in dr.get('seq_anomalies', [])[:3]:
+        f = Failure('C10-sequences', lab, f"after {a['operations']}: {a['problem']}", [{'file': 'doc.rs', 'line': 0, 'text': a['operations'], 'what': 'input'}], '', props=[pid])
+        f.witness = {'found': True, 'input': a}
+        res['failures'].append(f)
+    return res
 
 
 def c10_witness_all(pid, fails, repo):
+    if getattr(fails[0], 'witness', None) and fails[0].obligation.startswith('bounded:'):
+        return fails[0].witness
     if any(f.obligation.startswith(('decl:', 'index:')) for f in fails):
         return l3_witness(pid, fails, repo)
     return c10_witness(pid, fails, repo)
